@@ -270,8 +270,14 @@ pub fn run_case(rep: &mut Report, case: &Case) {
                 }
                 // timestamps taken after a step are in the stepped timescale
                 t = (t as i128 + (clock.now as i128 - now_before as i128)).max(0) as u128;
+                if std::env::var("VP_C13_TRACE").is_ok() {
+                    eprintln!("trace: {:?} dt={:.6}s value={:.9}s t={:.6}s clock_log={:?}", s.kind, s.dt as f64 / 4294967296e9, s.value as f64 / 4294967296e9, t as f64 / 4294967296e9, clock.log.iter().rev().take(2).collect::<Vec<_>>());
+                }
                 let e = f.current_estimates();
                 let _ = (e.offset_from_master, e.mean_delay);
+                if std::env::var("VP_C13_TRACE").is_ok() {
+                    eprintln!("trace:    estimates offset={:?} delay={:?}", e.offset_from_master, e.mean_delay);
+                }
             }
             let before = clock.log.len();
             f.demobilize(&mut clock);
@@ -281,7 +287,7 @@ pub fn run_case(rep: &mut Report, case: &Case) {
             Ok(before) => judge_log(rep, case, &clock.log, Some(before), "kalman", &replay),
             Err(p) => {
                 judge_log(rep, case, &clock.log, None, "kalman", &replay);
-                rep.violation(&format!("C13|kalman|panic|{}|{}|{}", p.site(), p.class(), clock_class(case)), &format!("KalmanFilter panicked: {} at {} [{cls}]", p.message, p.location), replay.clone());
+                rep.violation(&format!("C13|kalman|panic|{}|{}|{}", p.site(), p.class(), clock_class(case)), &format!("KalmanFilter panicked: {} [{cls}]", p.describe()), replay.clone());
             }
         }
     }
